@@ -205,46 +205,82 @@ def run(ctx):
         else:
             R.violation('c', 'R1', 'Signing->Ready: "no certificate yet" is mapped to RuntimeError::KeepState', 'signing_ready:none-error', '', tr_.loc())
 
-    # ---- (d)
+    # ---- (d)  decided on the calls of the lock API anywhere under create_artifact (the steps may sit in private helpers)
     ca = ctx.try_fn('d', CA)
     if ca is not None:
         lc = ca.logic()
-        LOCK = ['mithril_signed_entity_lock::signed_entity_type_lock::SignedEntityTypeLock::lock']
-        REL = ['mithril_signed_entity_lock::signed_entity_type_lock::SignedEntityTypeLock::release']
-        locks = ctx.call_sites(lc.body, LOCK)
-        # the spawned task: a coroutine nested in create_artifact that calls release
-        rel_bodies = [g for g in lc.family() if ctx.call_sites(g.body, REL)]
+        SL = 'mithril_signed_entity_lock::signed_entity_type_lock::SignedEntityTypeLock::'
+        LOCK, REL, ISL = [SL + 'lock'], [SL + 'release'], [SL + 'is_locked']
+        SPAWN = ['tokio::task::spawn*', 'tokio::spawn*', 'tokio::task::spawn::spawn*']
         inst = 'create_artifact: lock before spawn; the spawned task releases the lock on every exit'
         problems = []
+        root = getattr(ca, '_orig', ca).root()
+
+        def _sites(pats):
+            try:
+                return ctx.closure_sites(CA, pats, depth=3)
+            except Exception:  # noqa
+                return []
+        locks, rels, isls = _sites(LOCK), _sites(REL), _sites(ISL)
+        spawns = ctx.call_sites(lc.body, SPAWN)
         if not locks:
             problems.append('no lock call')
-        if not rel_bodies:
+        if not rels:
             problems.append('no release call in the spawned task')
-        for g in rel_bodies:
+        if not spawns:
+            problems.append('no spawn in create_artifact')
+        # the locked / released entity type is the one create_artifact was given
+        for what, sites in (('locked', locks), ('released', rels)):
+            for g, c in sites:
+                if not has(ctx.deep(CA, g, c.args[1], True, up=3, depth=3), 'p#2'):
+                    problems.append('%s entity type does not derive from signed_entity_type' % what)
+        # every exit of a releasing body has passed a release
+        for g in {id(g): g for g, _ in rels}.values():
             body = g.body
-            rels = ctx.call_sites(body, REL)
-            removed = {(c.bb, c.target) for c in rels}
+            rs_ = ctx.call_sites(body, REL)
+            removed = {(c.bb, c.target) for c in rs_}
             rets = {bi for bi, b in enumerate(body.blocks) if b.term[0] == 'ret' and not b.cleanup}
             if rets & body.reach([0], removed=removed):
                 problems.append('%s can return without releasing the lock' % fn_short(g.name))
-            # the released type is the locked one
-            for c in rels:
-                if not has(fn_origins(g, c.args[1], True), 'p#2'):
-                    problems.append('released entity type does not derive from the locked one')
-        for c in locks:
-            if not has(fn_origins(lc, c.args[1], True), 'p#2'):
-                problems.append('locked entity type does not derive from signed_entity_type')
-        # an already locked entity is refused
-        isl = ctx.call_sites(lc.body, ['mithril_signed_entity_lock::signed_entity_type_lock::SignedEntityTypeLock::is_locked'])
-        rem = set()
-        for c in isl:
-            rem |= track_result(lc.body, c.dest[0], -1).success_edges
-        if not isl or success_reachable(lc.body, rem, 'ok'):
+            # ... and that body is what is spawned (the coroutine nested in create_artifact, or a method whose future is handed to spawn)
+            if getattr(g, '_orig', g).root() is not root:
+                hn = getattr(g, '_orig', g).root().name
+                if not any(has(fn_origins(lc, c.args[0], True), 'call:' + hn) for c in spawns if c.args):
+                    problems.append('the releasing task %s is not the one spawned' % fn_short(hn))
+        # an already locked entity is refused, and the lock is taken before the task is spawned
+        gate_names = []
+        for g, c in isls:
+            body = g.body
+            rem = track_result(body, c.dest[0], -1).success_edges
+            from engine import ty_class
+            succ = {'result': 'ok', 'option': 'some', 'bool': 'true'}.get(ty_class(g.ret), 'any')
+            if not rem or success_reachable(body, rem, succ):
+                problems.append('an already locked entity type is not refused')
+            if any(lk.bb in body.reach([0], removed=rem) for lk in ctx.call_sites(body, LOCK)):
+                problems.append('the lock is taken although the entity type is already locked')
+            if getattr(g, '_orig', g).root() is not root:
+                gate_names.append(getattr(g, '_orig', g).root().name)
+        if not isls:
             problems.append('an already locked entity type is not refused')
+        lock_steps = ctx.call_sites(lc.body, LOCK)
+        step_edges = {(c.bb, c.target) for c in lock_steps if c.target is not None}
+        helper_names = sorted({getattr(g, '_orig', g).root().name for g, _ in locks if getattr(g, '_orig', g).root() is not root})
+        if helper_names:
+            hs, he = ctx.success_edges_of(lc, helper_names, +1)
+            step_edges |= he
+            # the helper's failure (already locked) must not be ignored by create_artifact
+            if gate_names and not he:
+                problems.append('the result of the locking helper is not branched on')
+        if spawns and step_edges:
+            reach = lc.body.reach([0], removed=step_edges)
+            if any(c.bb in reach for c in spawns):
+                problems.append('the task can be spawned before the lock is taken')
+        elif spawns and locks:
+            problems.append('the lock step is not on the way to the spawn')
         if problems:
-            R.violation('d', 'R2', inst, 'create_artifact:lock-pairing', '; '.join(problems), ca.loc())
+            R.violation('d', 'R2', inst, 'create_artifact:lock-pairing', '; '.join(sorted(set(problems))), ca.loc())
         else:
-            R.ok('d', 'R2', inst, '', ca.loc())
+            R.ok('d', 'R2', inst, '%d lock, %d release, %d refusal site(s)' % (len(locks), len(rels), len(isls)), ca.loc())
 
 
 # ---- (e) added after seed C15-2: what a restart finds
